@@ -116,3 +116,361 @@ Section U.
       rewrite ?name_and_ext_dir, ?name_and_ext_file by assumption; reflexivity.
   Qed.
 End U.
+
+(* ---------------- histories: what the maps hold after any sequence of operations ---------------- *)
+From Ructe Require Import MapProofs.
+Section H.
+  Variable uni_esc uni_alnum : N -> bool.
+  Variable mm : mime_mode.
+  Variable header : bytes.
+  Notation run := (run_ops uni_esc uni_alnum mm header).
+  Notation pub := (published uni_alnum).
+
+  Definition pubs (ops : list sop) : list (bytes * bytes) :=
+    flat_map (fun o => match pub o with Some p => [p] | None => [] end) ops.
+
+  Lemma run_snoc ops o : run (ops ++ [o]) = apply_op uni_esc uni_alnum mm (run ops) o.
+  Proof. unfold run_ops. now rewrite fold_left_app. Qed.
+  Lemma pubs_snoc ops o : pubs (ops ++ [o]) = pubs ops ++ match pub o with Some p => [p] | None => [] end.
+  Proof. unfold pubs. rewrite flat_map_app. cbn. now rewrite app_nil_r. Qed.
+
+  Lemma run_sorted ops : ssorted (map fst (names_r (run ops))) /\ ssorted (map fst (names (run ops))).
+  Proof.
+    induction ops as [|o ops IH] using rev_ind; [split; constructor|].
+    rewrite run_snoc. pose proof (apply_op_maps uni_esc uni_alnum mm (run ops) o) as M.
+    destruct (pub o) as [[id url]|].
+    - destruct M as [M1 M2]. rewrite M1, M2. destruct IH. split; apply insert_keys_sorted; assumption.
+    - rewrite M. exact IH.
+  Qed.
+
+  Lemma run_keys ops x :
+    (In x (map fst (names_r (run ops))) <-> In x (map snd (pubs ops))) /\
+    (In x (map fst (names (run ops))) <-> In x (map fst (pubs ops))).
+  Proof.
+    induction ops as [|o ops IH] using rev_ind; [cbn; tauto|].
+    rewrite run_snoc, pubs_snoc, !map_app, !in_app_iff.
+    pose proof (apply_op_maps uni_esc uni_alnum mm (run ops) o) as M.
+    destruct (pub o) as [[id url]|].
+    - destruct M as [M1 M2]. rewrite M1, M2, !insert_keys_in. cbn. intuition.
+    - rewrite M. cbn. tauto.
+  Qed.
+
+  Lemma run_lookup ops : NoDup (map fst (pubs ops)) -> NoDup (map snd (pubs ops)) ->
+    forall id url, In (id, url) (pubs ops) ->
+      lookup url (names_r (run ops)) = Some id /\ lookup id (names (run ops)) = Some url.
+  Proof.
+    induction ops as [|o ops IH] using rev_ind; [intros _ _ id url []|].
+    rewrite run_snoc, pubs_snoc, !map_app.
+    pose proof (apply_op_maps uni_esc uni_alnum mm (run ops) o) as M.
+    destruct (pub o) as [[i u]|].
+    - cbn [map fst snd]. intros N1 N2 id url I.
+      apply NoDup_remove in N1. apply NoDup_remove in N2. rewrite app_nil_r in N1, N2.
+      destruct N1 as [N1 F1]. destruct N2 as [N2 F2].
+      destruct M as [M1 M2]. rewrite M1, M2.
+      apply in_app_iff in I. destruct I as [I|[[= <- <-]|[]]].
+      + assert (url <> u). { intros ->. apply F2. change u with (snd (id, u)). now apply in_map. }
+        assert (id <> i). { intros ->. apply F1. change i with (fst (i, url)). now apply in_map. }
+        rewrite !lookup_insert_other by assumption. now apply IH.
+      + now rewrite !lookup_insert_same.
+    - cbn [map]. rewrite !app_nil_r. rewrite M. intros N1 N2 id url I. now apply IH.
+  Qed.
+
+  (* STATICS holds each added file exactly once *)
+  Lemma run_complete ops : NoDup (map snd (pubs ops)) ->
+    Permutation (map fst (names_r (run ops))) (map snd (pubs ops)).
+  Proof.
+    intros ND. apply NoDup_Permutation; [apply ssorted_nodup, run_sorted|exact ND|].
+    intros x. apply run_keys.
+  Qed.
+
+  Lemma nth_map_fst (m : list (bytes * bytes)) i : i < length m ->
+    exists v, nth_error m i = Some (nth i (map fst m) [], v).
+  Proof.
+    revert i; induction m as [|[k v] r IH]; intros i H; [cbn in H; lia|].
+    destruct i; [exists v; reflexivity|]. cbn in H. cbn [map fst nth nth_error]. apply IH. lia.
+  Qed.
+
+  Lemma get_exact_lemma ops n : NoDup (map fst (pubs ops)) -> NoDup (map snd (pubs ops)) ->
+    (forall id, In (id, n) (pubs ops) -> statics_get (run ops) n = Some (n, id)) /\
+    (~ In n (map snd (pubs ops)) -> statics_get (run ops) n = None).
+  Proof.
+    intros N1 N2. unfold statics_get.
+    pose proof (binary_search_correct_lemma (map fst (names_r (run ops))) n (proj1 (run_sorted ops))) as B.
+    destruct (binary_search (map fst (names_r (run ops))) n) as [i|].
+    - destruct B as [Hi En]. rewrite map_length in Hi.
+      destruct (nth_map_fst _ _ Hi) as [v Ev]. rewrite En in Ev. split.
+      + intros id I. rewrite Ev. f_equal. f_equal.
+        destruct (run_lookup ops N1 N2 id n I) as [L _].
+        apply nth_error_In in Ev.
+        apply In_lookup in Ev; [congruence|apply ssorted_nodup, run_sorted].
+      + intros NI. exfalso. apply NI. apply (proj1 (run_keys ops n)).
+        apply nth_error_In in Ev. change n with (fst (n, v)). now apply in_map.
+    - split; [|reflexivity]. intros id I. exfalso. apply B. apply (proj1 (run_keys ops n)).
+      change n with (snd (id, n)). now apply in_map.
+  Qed.
+End H.
+
+(* ---------------- identifiers (C16) ---------------- *)
+Lemma utf8_decode_aux_ascii s : is_ascii s = true -> forall n, length s <= n -> utf8_decode_aux n s = Some s.
+Proof.
+  induction s as [|c s IH]; intros H n L; [destruct n; reflexivity|].
+  cbn [is_ascii forallb] in H. apply andb_true_iff in H. destruct H as [Hc Hs].
+  destruct n as [|n]; [cbn in L; lia|]. cbn [utf8_decode_aux utf8_step]. rewrite Hc.
+  rewrite IH; [reflexivity|exact Hs|cbn in L; lia].
+Qed.
+Lemma utf8_decode_ascii s : is_ascii s = true -> utf8_decode s = Some s.
+Proof. intros H. unfold utf8_decode. now apply utf8_decode_aux_ascii. Qed.
+
+Definition subst_ident (c : N) : N := if is_alpha c || is_digit c then c else 95%N.
+Definition ident_char (c : N) : bool := is_alpha c || is_digit c || N.eqb c 95.
+Definition ident_ok (r : bytes) : bool :=
+  match r with c :: _ => (is_alpha c || N.eqb c 95) && forallb ident_char r | [] => false end.
+
+Section I.
+  Variable uni_alnum : N -> bool.
+  Lemma rust_ident_ascii s : is_ascii s = true ->
+    rust_ident uni_alnum s =
+      match map subst_ident s with
+      | [] => [110%N]
+      | c :: r => if is_digit c then 110%N :: c :: r else c :: r
+      end.
+  Proof.
+    intros H. unfold rust_ident. rewrite (utf8_decode_ascii s H).
+    assert (E : flat_map (fun c => if is_alnum_cp uni_alnum c then utf8_encode c else [95%N]) s = map subst_ident s).
+    { clear -H. induction s as [|c s IH]; [reflexivity|].
+      cbn [is_ascii forallb] in H. apply andb_true_iff in H. destruct H as [Hc Hs].
+      cbn [flat_map map]. rewrite (IH Hs). unfold is_alnum_cp, subst_ident, utf8_encode. rewrite Hc.
+      destruct (is_alpha c || is_digit c); reflexivity. }
+    rewrite E. destruct (map subst_ident s); reflexivity.
+  Qed.
+
+  Lemma subst_ident_char c : ident_char (subst_ident c) = true.
+  Proof.
+    unfold ident_char, subst_ident. destruct (is_alpha c || is_digit c) eqn:E; [now rewrite E|reflexivity].
+  Qed.
+  Lemma is_digit_not_alpha c : is_digit c = true -> is_alpha c = false.
+  Proof.
+    unfold is_digit, is_alpha. intros H. apply andb_true_iff in H. destruct H as [H1 H2].
+    apply N.leb_le in H1, H2.
+    assert (A : (65 <=? c)%N = false) by (apply N.leb_gt; lia). rewrite A. cbn.
+    assert (B : (97 <=? c)%N = false) by (apply N.leb_gt; lia). now rewrite B.
+  Qed.
+
+  Lemma rust_ident_ascii_legal s : is_ascii s = true -> ident_ok (rust_ident uni_alnum s) = true.
+  Proof.
+    intros H. rewrite (rust_ident_ascii s H).
+    assert (F : forallb ident_char (map subst_ident s) = true).
+    { apply forallb_forall. intros x Hx. apply in_map_iff in Hx. destruct Hx as [c [<- _]]. apply subst_ident_char. }
+    destruct (map subst_ident s) as [|c r] eqn:E; [reflexivity|].
+    destruct (is_digit c) eqn:D.
+    - cbn [ident_ok]. change (forallb ident_char (110%N :: c :: r)) with (ident_char 110 && forallb ident_char (c :: r)).
+      rewrite F. reflexivity.
+    - cbn [ident_ok]. rewrite F, andb_true_r.
+      cbn [forallb] in F. apply andb_true_iff in F. destruct F as [F _].
+      unfold ident_char in F. rewrite D, orb_false_r in F. exact F.
+  Qed.
+
+  (* the identifier of a hashed entry point comes from stem_ext: it contains an underscore
+     and has at least two characters, so it is neither `_` nor a keyword *)
+  Lemma subst_ident_95 : subst_ident 95 = 95%N. Proof. reflexivity. Qed.
+  Lemma rust_ident_hashed_has_underscore stem ext : stem <> [] -> is_ascii (stem ++ 95%N :: ext) = true ->
+    In 95%N (rust_ident uni_alnum (stem ++ 95%N :: ext)) /\ 2 <= length (rust_ident uni_alnum (stem ++ 95%N :: ext)).
+  Proof.
+    intros Hs H. rewrite (rust_ident_ascii _ H). rewrite map_app. cbn [map]. rewrite subst_ident_95.
+    destruct stem as [|c stem]; [congruence|]. cbn [map app].
+    assert (I : In 95%N (subst_ident c :: map subst_ident stem ++ 95%N :: map subst_ident ext)).
+    { right. apply in_app_iff. right. now left. }
+    assert (L : 2 <= length (subst_ident c :: map subst_ident stem ++ 95%N :: map subst_ident ext)).
+    { cbn [length]. rewrite app_length. cbn [length]. lia. }
+    destruct (is_digit (subst_ident c)); [split; [now right|cbn [length] in *; lia]|split; assumption].
+  Qed.
+End I.
+
+Local Open Scope string_scope.
+Definition rust_keywords : list bytes := map b
+  ["as";"break";"const";"continue";"crate";"else";"enum";"extern";"false";"fn";"for";"if";"impl";"in";"let";
+   "loop";"match";"mod";"move";"mut";"pub";"ref";"return";"self";"Self";"static";"struct";"super";"trait";
+   "true";"type";"unsafe";"use";"where";"while";"async";"await";"dyn";"abstract";"become";"box";"do";"final";
+   "macro";"override";"priv";"typeof";"unsized";"virtual";"yield";"try";"gen"].
+Lemma keywords_have_no_underscore : forallb (fun k => negb (mem 95 k)) rust_keywords = true.
+Proof. vm_compute. reflexivity. Qed.
+Lemma mem_In c l : In c l -> mem c l = true.
+Proof.
+  induction l as [|x l IH]; cbn; [tauto|]. intros [->|H]; [now rewrite N.eqb_refl|].
+  rewrite (IH H). apply orb_true_r.
+Qed.
+Lemma not_keyword_if_underscore r : In 95%N r -> ~ In r rust_keywords.
+Proof.
+  intros H K. pose proof keywords_have_no_underscore as F. rewrite forallb_forall in F.
+  specialize (F r K). rewrite (mem_In _ _ H) in F. discriminate.
+Qed.
+
+(* ---------------- sass static_name (C20) ---------------- *)
+Local Open Scope list_scope.
+Lemma rsplit_once_dot_eq s : forall bf cur sn, rsplit_once_dot s bf cur sn = rsplit_dot s bf cur sn.
+Proof. induction s as [|c s IH]; intros; cbn; [reflexivity|]. destruct (N.eqb c 46); apply IH. Qed.
+
+Lemma strip_prefix_app t r : strip_prefix t (t ++ r) = Some r.
+Proof. induction t as [|x t IH]; cbn; [reflexivity|]. now rewrite N.eqb_refl. Qed.
+Lemma strip_prefix_sound t : forall i r, strip_prefix t i = Some r -> i = t ++ r.
+Proof.
+  induction t as [|x t IH]; intros i r H; cbn in H; [now inversion H|].
+  destruct i as [|y i]; [discriminate|]. destruct (N.eqb x y) eqn:E; [|discriminate].
+  apply N.eqb_eq in E. subst y. cbn. f_equal. now apply IH.
+Qed.
+Lemma strip_suffix_app x e : strip_suffix_b e (x ++ e) = Some x.
+Proof. unfold strip_suffix_b. rewrite rev_app_distr, strip_prefix_app. now rewrite rev_involutive. Qed.
+Lemma strip_suffix_sound e s x : strip_suffix_b e s = Some x -> s = x ++ e.
+Proof.
+  unfold strip_suffix_b. destruct (strip_prefix (rev e) (rev s)) as [r|] eqn:E; [|discriminate].
+  intros [= <-]. apply strip_prefix_sound in E. apply (f_equal (@rev N)) in E.
+  rewrite rev_involutive, rev_app_distr, rev_involutive in E. exact E.
+Qed.
+
+Lemma is_url_name_for_hashed stem ext h : no_byte 46 ext -> length h = 8 ->
+  is_url_name_for (stem ++ b "-" ++ h ++ b "." ++ ext) (stem ++ 46%N :: ext) = true.
+Proof.
+  intros He Hh. unfold is_url_name_for. apply orb_true_iff. right.
+  rewrite rsplit_once_dot_eq, rsplit_dot_spec by assumption. cbn [app].
+  rewrite strip_prefix_app.
+  replace (b "-" ++ h ++ b "." ++ ext) with ((45%N :: h ++ [46%N]) ++ ext)
+    by (cbn; now rewrite <- app_assoc).
+  rewrite strip_suffix_app. cbn [length]. rewrite app_length, Hh. cbn [length Nat.add Nat.eqb andb].
+  cbn [rev]. rewrite rev_app_distr. cbn. reflexivity.
+Qed.
+
+Lemma is_url_name_for_refl u : is_url_name_for u u = true.
+Proof. unfold is_url_name_for. now rewrite beqb_refl. Qed.
+
+(* what a successful match means *)
+Lemma is_url_name_for_sound url name : is_url_name_for url name = true ->
+  url = name \/
+  exists stem ext h, rsplit_dot name [] [] false = Some (stem, ext) /\
+                     url = stem ++ h ++ ext /\ length h = 10 /\ hd 0%N h = 45%N /\ last h 0%N = 46%N.
+Proof.
+  unfold is_url_name_for. intros H. apply orb_true_iff in H. destruct H as [H|H]; [left; now apply beqb_true|right].
+  rewrite rsplit_once_dot_eq in H.
+  destruct (rsplit_dot name [] [] false) as [[stem ext]|]; [|discriminate].
+  destruct (strip_prefix stem url) as [u|] eqn:E1; [|discriminate].
+  destruct (strip_suffix_b ext u) as [h|] eqn:E2; [|discriminate].
+  apply strip_prefix_sound in E1. apply strip_suffix_sound in E2. subst.
+  apply andb_true_iff in H. destruct H as [H H3]. apply andb_true_iff in H. destruct H as [H1 H2].
+  exists stem, ext, h. split; [reflexivity|]. split; [reflexivity|].
+  split; [now apply Nat.eqb_eq|].
+  split.
+  - destruct h; [discriminate|]. apply N.eqb_eq in H2. now subst.
+  - destruct (rev h) as [|c r] eqn:R; [discriminate|]. apply N.eqb_eq in H3. subst c.
+    apply (f_equal (@rev N)) in R. rewrite rev_involutive in R. rewrite R. cbn [rev].
+    now rewrite last_last.
+Qed.
+
+Lemma find_name_found rid name m v : NoDup (map fst m) -> In (rid, v) m -> is_url_name_for v name = true ->
+  find_name rid name m = Some v.
+Proof.
+  induction m as [|[k w] r IH]; intros ND I U; [destruct I|].
+  cbn [find_name]. inversion ND; subst. destruct I as [[= -> ->]|I].
+  - now rewrite beqb_refl, U.
+  - destruct (beqb k rid) eqn:E.
+    + apply beqb_true in E. subst k. exfalso. apply H1. change rid with (fst (rid, v)). now apply in_map.
+    + cbn [andb]. now apply IH.
+Qed.
+Lemma find_name_sound rid name m v : find_name rid name m = Some v ->
+  In (rid, v) m /\ is_url_name_for v name = true.
+Proof.
+  induction m as [|[k w] r IH]; cbn [find_name]; [discriminate|].
+  destruct (beqb k rid && is_url_name_for w name) eqn:E.
+  - intros [= <-]. apply andb_true_iff in E. destruct E as [E1 E2]. apply beqb_true in E1. subst k.
+    split; [now left|exact E2].
+  - intros H. destruct (IH H) as [A B]. split; [now right|exact B].
+Qed.
+
+Lemma insert_In k v m x : In x (insert k v m) -> x = (k, v) \/ In x m.
+Proof.
+  induction m as [|[k' v'] r IH]; cbn [insert]; [intros [<-|[]]; now left|].
+  destruct (beqb k k'); [intros [<-|I]; [now left|right; now right]|].
+  destruct (lex_lt k k'); [intros [<-|I]; [now left|now right]|].
+  intros [<-|I]; [right; now left|]. destruct (IH I); [now left|right; now right].
+Qed.
+
+Section S20.
+  Variable uni_esc uni_alnum : N -> bool.
+  Variable mm : mime_mode.
+  Variable header : bytes.
+  Notation run := (run_ops uni_esc uni_alnum mm header).
+  Notation pub := (published uni_alnum).
+
+  Lemma In_pubs ops o p : In o ops -> pub o = Some p -> In p (pubs uni_alnum ops).
+  Proof. intros I E. unfold pubs. apply in_flat_map. exists o. split; [exact I|]. rewrite E. now left. Qed.
+  Lemma pubs_In ops p : In p (pubs uni_alnum ops) -> exists o, In o ops /\ pub o = Some p.
+  Proof.
+    unfold pubs. intros I. apply in_flat_map in I. destruct I as [o [Io Ip]]. exists o. split; [exact Io|].
+    destruct (pub o) as [q|]; [destruct Ip as [->|[]]; reflexivity|destruct Ip].
+  Qed.
+
+  Lemma run_names_sub ops x : In x (names (run ops)) -> In x (pubs uni_alnum ops).
+  Proof.
+    induction ops as [|o ops IH] using rev_ind; [intros []|].
+    rewrite run_snoc, pubs_snoc. pose proof (apply_op_maps uni_esc uni_alnum mm (run ops) o) as M.
+    destruct (pub o) as [[i u]|].
+    - destruct M as [M1 _]. rewrite M1. intros I. apply insert_In in I. apply in_app_iff.
+      destruct I as [->|I]; [right; now left|left; now apply IH].
+    - rewrite M, app_nil_r. exact IH.
+  Qed.
+
+  Lemma rust_ident_dot_underscore stem ext : is_ascii (stem ++ 46%N :: ext) = true ->
+    rust_ident uni_alnum (stem ++ 46%N :: ext) = rust_ident uni_alnum (stem ++ b "_" ++ ext).
+  Proof.
+    intros H.
+    assert (H' : is_ascii (stem ++ b "_" ++ ext) = true).
+    { unfold is_ascii in *. rewrite forallb_app in *. cbn [forallb app] in *. exact H. }
+    rewrite (rust_ident_ascii uni_alnum _ H), (rust_ident_ascii uni_alnum _ H').
+    rewrite !map_app. reflexivity.
+  Qed.
+
+  (* every file added under a hashed name is found by its file name *)
+  Lemma static_name_finds_hashed ops o path content stem ext :
+    NoDup (map fst (pubs uni_alnum ops)) -> NoDup (map snd (pubs uni_alnum ops)) ->
+    In o ops -> (o = OpFile path content \/ o = OpData path content) ->
+    name_and_ext path = Some (stem, ext) -> no_byte 46 ext -> is_ascii (stem ++ 46%N :: ext) = true ->
+    static_name uni_alnum (run ops) (stem ++ 46%N :: ext) = Some (hashed_url stem ext content).
+  Proof.
+    intros N1 N2 Io Ho Hn He Ha.
+    assert (P : pub o = Some (rust_ident uni_alnum (stem ++ b "_" ++ ext), hashed_url stem ext content)).
+    { destruct Ho as [-> | ->]; cbn [published]; now rewrite Hn. }
+    pose proof (In_pubs ops o _ Io P) as Ip.
+    destruct (run_lookup uni_esc uni_alnum mm header ops N1 N2 _ _ Ip) as [_ L].
+    unfold static_name. rewrite (rust_ident_dot_underscore stem ext Ha).
+    apply find_name_found.
+    - apply ssorted_nodup. exact (proj2 (run_sorted uni_esc uni_alnum mm header ops)).
+    - now apply lookup_In.
+    - unfold hashed_url. apply is_url_name_for_hashed; [exact He|apply slug_length].
+  Qed.
+
+  (* a file added with add_file_as is found by its url name *)
+  Lemma static_name_finds_as ops path url :
+    NoDup (map fst (pubs uni_alnum ops)) -> NoDup (map snd (pubs uni_alnum ops)) ->
+    In (OpFileAs path url) ops ->
+    static_name uni_alnum (run ops) url = Some url.
+  Proof.
+    intros N1 N2 Io.
+    pose proof (In_pubs ops _ _ Io eq_refl) as Ip.
+    destruct (run_lookup uni_esc uni_alnum mm header ops N1 N2 _ _ Ip) as [_ L].
+    unfold static_name. apply find_name_found.
+    - apply ssorted_nodup. exact (proj2 (run_sorted uni_esc uni_alnum mm header ops)).
+    - now apply lookup_In.
+    - apply is_url_name_for_refl.
+  Qed.
+
+  (* whatever static_name returns is the url name some operation published under that very
+     identifier, and it is the requested name itself or that name with a 8-character hash
+     inserted before the extension *)
+  Lemma static_name_sound ops g v : static_name uni_alnum (run ops) g = Some v ->
+    (exists o, In o ops /\ pub o = Some (rust_ident uni_alnum g, v)) /\
+    (v = g \/ exists stem ext h, rsplit_dot g [] [] false = Some (stem, ext) /\ v = stem ++ h ++ ext /\
+                                 length h = 10 /\ hd 0%N h = 45%N /\ last h 0%N = 46%N).
+  Proof.
+    unfold static_name. intros H. apply find_name_sound in H. destruct H as [I U]. split.
+    - apply pubs_In. now apply run_names_sub.
+    - now apply is_url_name_for_sound.
+  Qed.
+End S20.
